@@ -17,6 +17,8 @@ def owners(tag, kind):
         out.add("C14")   # a read-only call that rewrites the decoded Bitrate: the packet no longer holds mantissa x 2^exponent
     if kind == "XR" and tag == "C18:parts_of_a_packet_share_memory":
         out.add("C15")   # blocks "decode ... independently of their neighbours"
+    if tag == "C18:parts_of_a_packet_share_memory":
+        out.add("C04")   # the fields Unmarshal extracted are the caller's: growing one list must not rewrite another
     if kind == "XR" and base in ("C02", "C03", "C04"):
         out.add("C15")
     if (kind in ("NACK", "FIR") and base in ("C02", "C03", "C04")) or (kind == "SLI" and tag in ("C02:roundtrip_value", "C04:value")):
@@ -37,12 +39,12 @@ def prop(pid, stages, **kw):
 
 WIRE_NOTE = "McWire enumerates every value of the star domains of spec/Domain.tla (all 15 packet kinds: one field at a time) and McWirePairs the pairwise domains (two fields or list lengths varied together, the varied element in the middle of a list); every emitted behaviour is replayed; random drivers add sampled values"
 
-prop("C01", lambda t, s: [("drive", "sizes", 0), ("drive", "soak", n(t, 70000, 300000)), ("mc", "Mc", n(t, "McFaults", "McFaults2")), ("mc", "Mc", "McFaultsDev"), ("drive", "fuzz", n(t, 1500, 40000)), ("drive", "bigdec", n(t, 0, 1)), ("drive", "amplify", 0)],
+prop("C01", lambda t, s: [("conc", n(t, 1, 10)), ("conc", n(t, 1, 10)), ("conc", n(t, 1, 10)), ("drive", "sizes", 0), ("drive", "soak", n(t, 70000, 300000)), ("mc", "Mc", n(t, "McFaults", "McFaults2")), ("mc", "Mc", "McFaultsDev"), ("drive", "fuzz", n(t, 1500, 40000)), ("drive", "bigdec", n(t, 0, 1)), ("drive", "amplify", 0)],
      exhaustive_note="McFaults enumerates every first-order fault of spec/Faults.tla on the tiny domain; every faulted buffer goes to all 16 packet decoders, 7 sub-decoders and the datagram decoder; McFaultsDev does the same from the encodings of the deviating model (SLI with PT 205, CCFB num_reports n-1), which are the ones the library's SLI and CCFB decoders accept")
 prop("C02", lambda t, s: [("mc", "Mc", "McWireUnk"), ("drive", "sizes", 0), ("drive", "dict", 0), ("mc", "Mc", "McWire"), ("mc", "Mc", "McWirePairs"), ("mc", "Mc", "McReuse"), ("drive", "reuserand", n(t, 300, 10000)), ("drive", "rt", n(t, 1500, 60000)), ("drive", "rtlist", n(t, 300, 10000)), ("drive", "bigframes", n(t, 0, 1)), ("drive", "recombine", n(t, 300, 10000))], exhaustive_note=WIRE_NOTE)
 prop("C03", lambda t, s: [("drive", "rtlist", n(t, 300, 10000)), ("drive", "sizes", 0), ("drive", "dict", 0), ("mc", "Mc", "McWire"), ("mc", "Mc", "McWirePairs"), ("mc", "Mc", "McVariants"), ("drive", "rt", n(t, 1500, 60000)), ("drive", "bigframes", n(t, 0, 1)), ("mc", "Mc", n(t, "McCompound", "McCompound4")), ("drive", "cprand", n(t, 200, 10000)), ("mc", "Mc", "McLoose"), ("drive", "errpaths", n(t, 200, 10000))], exhaustive_note=WIRE_NOTE)
 prop("C05", lambda t, s: [("drive", "sizes", 0), ("mc", "Mc", "McWire"), ("mc", "Mc", "McWirePairs"), ("drive", "rt", n(t, 1500, 60000)), ("drive", "rtlist", n(t, 300, 10000)), ("drive", "bigframes", n(t, 0, 1)), ("drive", "cprand", n(t, 200, 10000)), ("mc", "Mc", "McLoose")], exhaustive_note=WIRE_NOTE)
-prop("C09", lambda t, s: [("mc", "Mc", "McForeignPairs"), ("drive", "dict", 0), ("mc", "Mc", n(t, "McFaults", "McFaults2")), ("mc", "Mc", "McFaultsDev"), ("drive", "fuzzdgram", n(t, 8000, 300000))],
+prop("C09", lambda t, s: [("conc", n(t, 1, 10)), ("mc", "Mc", "McForeignPairs"), ("drive", "dict", 0), ("mc", "Mc", n(t, "McFaults", "McFaults2")), ("mc", "Mc", "McFaultsDev"), ("drive", "fuzzdgram", n(t, 8000, 300000))],
      exhaustive_note="McFaults enumerates every first-order fault on the tiny domain and follows every accepted datagram through Marshal and a second decode")
 prop("C10", lambda t, s: [("drive", "dict", 0), ("mc", "Mc", "McWireUnk"), ("mc", "Mc", "McWire"), ("mc", "Mc", "McWirePairs"), ("mc", "Mc", "McReuse"), ("mc", "Mc", n(t, "McHist", "McHist4")), ("drive", "histrand", n(t, 300, 10000)), ("mc", "Mc", n(t, "McCompound", "McCompound4")), ("drive", "rt", n(t, 1500, 60000)), ("drive", "cprand", n(t, 300, 20000))],
      exhaustive_note=WIRE_NOTE + "; McCompound gives every member sequence of up to 3 (thorough: 4) over 14 representative kinds to CompoundPacket.DestinationSSRC")
@@ -67,10 +69,10 @@ prop("C08", lambda t, s: [("drive", "sizes", 0), ("mc", "Mc", "McLimits"), ("dri
 prop("C11", lambda t, s: [("mc", "Mc", n(t, "McCompound", "McCompound4")), ("drive", "cprand", n(t, 600, 30000))],
      exhaustive_note="McCompound enumerates every sequence of up to 3 (thorough: 4) members over the 14 representative kinds of CpKinds (spec/Domain.tla): SR, RR with and without report blocks, six SDES shapes, BYE, feedback, APP, XR, Raw")
 
-prop("C12", lambda t, s: [("mc", "NackAlg", n(t, "McNack", "McNackThorough")), ("drive", "nackrand", n(t, 1500, 60000)), ("drive", "sweeps12", n(t, 65537, 1))],
+prop("C12", lambda t, s: [("conc", n(t, 1, 10)), ("mc", "NackAlg", n(t, "McNack", "McNackThorough")), ("drive", "nackrand", n(t, 1500, 60000)), ("drive", "sweeps12", n(t, 65537, 1))],
      exhaustive_note="McNack enumerates every list of up to 3 sequence numbers over 17 (thorough: 26) boundary values, Range with every stop position on every pair built from lists of up to 2, and the complete 2^16 bitmap table at 2 (thorough: 6) packet IDs")
 
-prop("C13", lambda t, s: [("mc", "TwccAlg", n(t, "McTwcc", "McTwccThorough")), ("mc", "TwccAlg", "McTwcc3"), ("drive", "twccfuzz", n(t, 3000, 100000)), ("drive", "fuzz", n(t, 400, 10000)), ("drive", "amplify", 0)],
+prop("C13", lambda t, s: [("mc", "Mc", "McReuse"), ("mc", "TwccAlg", n(t, "McTwcc", "McTwccThorough")), ("mc", "TwccAlg", "McTwcc3"), ("drive", "twccfuzz", n(t, 3000, 100000)), ("drive", "fuzz", n(t, 400, 10000)), ("drive", "amplify", 0)],
      exhaustive_note="McTwcc enumerates every status sequence of length 0..5 (thorough: 0..7) over {not received, small, large} in every chunking (run-length splits, 1-bit and 2-bit vectors, run-length overshoot 1 and 8191), plus two-run sequences with run lengths straddling 7 and 14 in six systematic chunkings; McTwcc3 does the same over four symbols (including the reserved symbol 3) up to length 4")
 
 prop("C14", lambda t, s: [("mc", "RembAlg", n(t, "McRemb", "McRembThorough")), ("mc", "Mc", "McWireRemb"), ("mc", "Mc", "McReuseDev"), ("drive", "rembrand", n(t, 300, 20000)), ("drive", "sweeps14", n(t, 65537, 1)), ("drive", "amplify", 0)],
@@ -95,7 +97,7 @@ MIN_BEHAVIOURS = {"McLoose": 80, "McTwcc3": 3500, "McWirePairs": 1300, "McForeig
                   "McDispatchAll": 30000, "McDgram": 600, "McDgram3": 10000, "McCompound": 5000, "McCompound4": 50000, "McNack": 5000,
                   "McNackThorough": 15000, "McTwcc": 7000, "McTwccThorough": 50000, "McRemb": 2100, "McRembThorough": 5000, "McWireRemb": 100,
                   "McXr": 300, "McXrThorough": 4000, "McWireXr": 180, "McUnits": 200, "McUnitsThorough": 1500, "McWireUnits": 250,
-                  "McHist": 5000, "McHist4": 20000, "McReuse": 300, "McReuseDev": 50}
+                  "McHist": 5000, "McHist4": 20000, "McReuse": 500, "McReuseDev": 50}
 
 # vacuity guard on the trace side: the least number of events of the classes a property's judgement rests on (quick tier numbers
 # are 3 to 5 times these); fewer means a driver or script silently stopped exercising the property -> exit 2
